@@ -538,7 +538,7 @@ def shiftOne (env : Env) (frontierIdx : Nat) (acc : Gss × BaseMap) (sh : Nat ×
   match baseGet (sh.2, position) acc.2 with
   | some shifted =>
     obind (acc.1.head shifted) fun shd =>
-    let r := acc.1.addNode (.term tk shd.span)
+    let r := acc.1.addNode (.term tk tk.span)
     .ok (r.1.addSolution shifted sh.1 r.2, acc.2)
   | none =>
     let r0 := acc.1.addHead ⟨sh.2, frontierIdx, position, tk.span, none, none⟩
